@@ -50,6 +50,11 @@ def ENCODED():
             lr.LiveRange.overlaps_address, lr.LiveRange.__lt__]
 
 
+class _Obj:
+    def __init__(self, **kw):
+        self.__dict__.update(kw)
+
+
 class _Tens:
     """stand-in tensor: only what LiveRange / the allocators touch"""
 
@@ -512,6 +517,69 @@ def linear(V, n, share, aligns=None):
     return cl
 
 
+def dispatch(V, allocator, alignment, times):
+    """tensor_allocation.allocate(): whichever allocator is selected is run with the REQUESTED tensor alignment and (HillClimb) the requested
+    iteration bound and the memory-type size as limit.  Live-range extraction is replaced by a fixed graph with symbolic sizes whose ranges carry
+    the requested alignment (what get_or_create_range gives them); the three allocators and verify_allocation/verify_alignment are the real ones."""
+    import ethosu.vela.hillclimb_allocation as hc
+    import ethosu.vela.tensor_allocation as ta
+    import ethosu.vela.greedy_allocation as ga
+    from ethosu.vela.tensor import MemArea, MemType
+    from ethosu.vela.nn_graph import TensorAllocator
+
+    n = len(times)
+    sizes = _sizes(V, n)
+    lrs = [_mk_lr("t%d" % i, times[i][0], times[i][1], sizes[i], alignment) for i in range(n)]
+    for i, lr in enumerate(lrs):
+        t = lr.tensors[0]
+        t.weight_compression_config = ("cfg", i)
+        t.scale_compression_config = ("scfg", i)
+
+    class G:
+        pass
+
+    g = G()
+    g.lrs = lrs
+    g.ranges = {lr.tensors[0]: lr for lr in lrs}
+    bound = V.int("hillclimb_max_iterations", 0, 1000)
+    msize = V.int("mem_type_size", 1 << 20, 1 << 40)
+    seen = {}
+    saved = (ta.live_range.extract_live_ranges_from_cascaded_passes, hc.HillClimbAllocator.allocate)
+
+    def fake_allocate(self):
+        seen["max_iterations"], seen["memory_limit"] = self.max_iterations, self.memory_limit
+        self.best_size = self.allocate_indices(list(range(len(self.lrs))))
+        self.allocated_addresses = [lr.address for lr in self.lrs]
+        return self.allocated_addresses
+
+    ta.live_range.extract_live_ranges_from_cascaded_passes = lambda *a, **k: g
+    hc.HillClimbAllocator.allocate = fake_allocate
+    try:
+        with core.shims(*(_hc_shims() + ((ta, {"min": core.smin, "max": core.smax, "int": core.sint, "math": rat.SMATH}),
+                                         (ga, {"min": core.smin, "max": core.smax})))):
+            _, total = ta.allocate(None, _Obj(mem_type_size=lambda mt: msize), MemArea.Sram, {MemType.Scratch}, TensorAllocator[allocator], None, alignment,
+                                   bound)
+    except ta.AllocationError as e:
+        return [("allocate() raised AllocationError on a legal request: %s" % e, False)]
+    finally:
+        ta.live_range.extract_live_ranges_from_cascaded_passes, hc.HillClimbAllocator.allocate = saved
+    addrs = [lr.tensors[0].address for lr in lrs]
+    cl = []
+    top = L(0)
+    for i in range(n):
+        cl.append(("tensor %d honours the requested alignment %d" % (i, alignment), L(addrs[i]) % alignment == 0))
+        e = L(addrs[i]) + L(sizes[i])
+        top = z3.If(e > top, e, top)
+        for j in range(i + 1, n):
+            if allocator == "LinearAlloc" or _colive(times[i], times[j]):
+                cl.append(("tensors %d,%d disjoint" % (i, j), _disjoint(addrs[i], sizes[i], addrs[j], sizes[j])))
+    cl.append(("reported total covers the highest end address", L(total) >= top))
+    if allocator == "HillClimb":
+        cl.append(("HillClimb runs with the requested iteration bound", L(seen.get("max_iterations", -1)) == L(bound)))
+        cl.append(("HillClimb is limited by the size of the memory type", L(seen.get("memory_limit", -1)) == L(msize)))
+    return cl
+
+
 def lr_alignment(V, first, second):
     """LiveRangeGraph.get_or_create_range: a live range looked up again (with the default or a smaller alignment) keeps the strictest
     alignment ever requested for it - both allocators read lr.get_alignment()"""
@@ -533,7 +601,7 @@ def lr_alignment(V, first, second):
 
 FUNCS = {"hc_indices": hc_indices, "hc_wrapper": hc_wrapper, "hc_search_step": hc_search_step, "hc_fix_perm": hc_fix_perm,
          "hc_allocate": hc_allocate, "greedy_step": greedy_step, "greedy_whole": greedy_whole, "verify_rejects": verify_rejects,
-         "linear": linear, "lr_alignment": lr_alignment}
+         "linear": linear, "lr_alignment": lr_alignment, "dispatch": dispatch}
 
 
 def _time_vectors(n, T):
@@ -611,4 +679,8 @@ def instances(tier, seed):
                         out.append(dict(key="linear/%d/%s/a%s" % (n, "".join(map(str, share)), "-".join(map(str, av[:n]))), fn="linear",
                                         params=dict(n=n, share=list(share), aligns=list(av[:n]))))
     out.append(dict(key="lr_alignment", fn="lr_alignment", params=dict(first=None, second=None)))
+    for allocator in ("Greedy", "LinearAlloc", "HillClimb"):
+        for alignment in (16, 64, 128):
+            for tv in (((0, 1), (1, 2)), ((0, 0), (1, 1), (0, 1))):
+                out.append(dict(key="dispatch/%s/a%d/%s" % (allocator, alignment, tk(tv)), fn="dispatch", params=dict(allocator=allocator, alignment=alignment, times=[list(t) for t in tv])))
     return out
